@@ -127,7 +127,11 @@ DHDone == /\ tid <= Len(Traces) /\ ph = "dh" /\ i = T.L
 Finish == /\ tid <= Len(Traces) /\ ph = "fin"
           /\ LET rows == Clause("C02_rows", TRUE, Len(T.hext) = NT /\ NT = T.L * T.n /\ Len(T.hextkwh) = T.L,
                                 [steps |-> NT, L |-> T.L, n |-> T.n])
-                 fin == VJoin(v, rows)
+                 \* what is reported at the end of Model.Calculate() is what balanced when the surface plant finished: the economics
+                 \* modules (add-ons, S-DAC-GT) may add to the energy SOLD, never to the flows extracted, pumped or remaining
+                 changed == IF "final" \in DOMAIN T THEN {k \in DOMAIN T.final : T.final[k] # T[k]} ELSE {}
+                 kept == Clause("C02_reported_unchanged", "final" \in DOMAIN T, changed = {}, [series |-> changed])
+                 fin == VJoin(VJoin(v, rows), kept)
              IN PrintT(ToJson([tid |-> T.tid, e |-> fin.e, f |-> fin.f, s |-> fin.s, w |-> fin.w]))
           /\ tid' = tid + 1 /\ ph' = "step" /\ i' = 0 /\ v' = V0
 
